@@ -13,10 +13,16 @@
 //	         remainder, GCD x/y), passed to an unknown callee, or handed on (returned, stored, sent) as a reference.
 //	         Local aliases (x := global, for reference kinds) and parameters of callees inside the two packages
 //	         are followed.
-//	sync   = receiver of a method of package sync / sync/atomic (allowed: synchronised by construction)
+//	sync   = receiver of a method of package sync / sync/atomic: reported in a list of its own (globalsSynchronised,
+//	         expected []): a pool, a sync.Map or an atomic.Value IS state shared between callers, and whether it is used
+//	         correctly (a pooled buffer not handed out after Put ...) is not analysed here
+//	`for k, v = range` (Tok =, not :=) with a package-level k or v is a write ("range assignment")
 //	read   = everything else
 //
-// It writes lean/GocoinV/Gen/C15Shared.lean: globalsRead, globalsWritten (expected []), encodeRemShared (is a
+// It writes lean/GocoinV/Gen/C15Shared.lean: globalsRead (informational), globalsReadRef (the reference-typed ones,
+// PINNED by the theorem: a new package-level slice / map / pointer / pool in the closure forces a look, whatever the
+// classifier thinks of its uses; a new read-only array or scalar table does not), globalsWritten (expected []),
+// globalsSynchronised (expected []), encodeRemShared (is a
 // destination of the big.Int division in Encodeb58's digit loop a package-level variable?). Props/C15 proves
 // globalsWritten = [] and uses encodeRemShared in the step-level model Model/Base58Sched.lean. A written global is
 // NOT a translate error (the shape is understood): the Lean theorem breaks, and the harness stream `conc` looks for
@@ -475,7 +481,14 @@ func (w *walker) node(n ast.Node) bool {
 			if e == nil {
 				continue
 			}
-			if _, ok := e.(*ast.Ident); ok {
+			if id, ok := e.(*ast.Ident); ok {
+				// `for k, v := range` defines new locals; `for k, v = range` ASSIGNS existing variables on every
+				// iteration - a package-level loop index / element variable is shared by all callers
+				if x.Tok == token.ASSIGN && id.Name != "_" {
+					if o := w.lp.info.Uses[id]; o != nil && w.tracked(o) && !w.param {
+						w.write(o, "range assignment")
+					}
+				}
 				continue
 			}
 			if r := w.rootOf(e); r != nil {
@@ -659,7 +672,7 @@ func genShared() (int, error) {
 	// the public-key derivation behind NewPrivateAddr belongs to C14/C08 (secp256k1 tables), not to the string codec
 	stop := map[string]bool{"btc.PublicFromPrivate": true}
 	sharedAn, sharedBtc, sharedClosure = an, btc, an.closure(roots, stop) // for strloop.go
-	readSet, writeSet, syncSet := map[string]bool{}, map[string]bool{}, map[string]bool{}
+	readSet, readRefSet, writeSet, syncSet := map[string]bool{}, map[string]bool{}, map[string]bool{}, map[string]bool{}
 	scan := func(fs []*types.Func) (writes []finding) {
 		for _, f := range fs {
 			fd, lp := an.decl[f], an.owner[f]
@@ -671,6 +684,9 @@ func genShared() (int, error) {
 			ast.Inspect(fd.Body, w.node)
 			for o := range w.reads {
 				readSet[varName(o)] = true
+				if isRef(o.Type(), 0) { // slices, maps, pointers, channels, functions, interfaces, structs/arrays of them
+					readRefSet[varName(o)] = true
+				}
 			}
 			for o := range w.syncs {
 				syncSet[varName(o)] = true
@@ -725,11 +741,14 @@ func genShared() (int, error) {
 	sb.WriteString("namespace GocoinV.Gen.C15Shared\n\n")
 	sb.WriteString("/-- package-level variables used by the call closure of the C15 API (inside btc and bech32) -/\n")
 	fmt.Fprintf(&sb, "def globalsRead : List String := %s\n\n", leanStrList(keys(readSet)))
+	sb.WriteString("/-- those of them whose type shares memory when copied (slice, map, pointer, channel, function, interface, or a\n    struct / array containing one): the variables through which a write can escape the classifier by aliasing -/\n")
+	fmt.Fprintf(&sb, "def globalsReadRef : List String := %s\n\n", leanStrList(keys(readRefSet)))
 	sb.WriteString("/-- uses that write one of them (or hand it on as a reference): \"function: variable (how)\" -/\n")
 	fmt.Fprintf(&sb, "def globalsWritten : List String := %s\n\n", leanStrList(keys(writeSet)))
 	sb.WriteString("/-- a destination of the big.Int division in Encodeb58's digit loop is a package-level variable -/\n")
 	fmt.Fprintf(&sb, "def encodeRemShared : Bool := %v\n\n", remShared)
-	fmt.Fprintf(&sb, "-- synchronised (sync / sync/atomic receivers, allowed): %s\n\n", strings.Join(keys(syncSet), ", "))
+	sb.WriteString("/-- package-level variables used as the receiver of a sync / sync/atomic method (sync.Pool, sync.Map, sync.Once,\n    atomic.Value, mutexes ...): state shared between callers whose correct use is NOT analysed here -/\n")
+	fmt.Fprintf(&sb, "def globalsSynchronised : List String := %s\n\n", leanStrList(keys(syncSet)))
 	sb.WriteString("end GocoinV.Gen.C15Shared\n")
 	out := vlib.Root() + "/lean/GocoinV/Gen/C15Shared.lean"
 	os.Remove(out)
@@ -739,5 +758,8 @@ func genShared() (int, error) {
 	for _, k := range keys(writeSet) {
 		fmt.Println("SHARED-WRITE", k)
 	}
-	return 3, nil
+	for _, k := range keys(syncSet) {
+		fmt.Println("SHARED-SYNC", k)
+	}
+	return 5, nil
 }
